@@ -3,13 +3,13 @@
          s:hex  isn:n  (sender stream / ISN: used by the Go oracle only, ignored here)
    flags: 1 SYN, 2 FIN, 4 RST, 8 Accept forces *start.
    The variant of the code that is modelled (which repairs are in) defaults to the repaired
-   one; C09_VARIANT=dfk (three 0/1 digits: Difference, FIN, KeepFrom-skip) overrides it. *)
+   one; C09_VARIANT=dfky (four 0/1 digits: Difference, FIN, KeepFrom-skip, late SYN) overrides it. *)
 open Util
 
 let variant =
   match Sys.getenv_opt "C09_VARIANT" with
-  | Some s when String.length s = 3 -> (s.[0] = '1', s.[1] = '1', s.[2] = '1')
-  | _ -> (true, true, true)
+  | Some s when String.length s = 4 -> (s.[0] = '1', s.[1] = '1', s.[2] = '1', s.[3] = '1')
+  | _ -> (true, true, true, true)
 
 let zi s = z_of_int (int_of_string s)
 
@@ -48,9 +48,9 @@ let b2i b = if b then 1 else 0
 let run (id : string) (ops : string list) (out : out_channel) =
   (* ops that the model ignores still count as steps (empty observation), to keep step numbers aligned *)
   let parsed = Stdlib.List.map parse_op ops in
-  let (d, f, k) = variant in
+  let (d, f, k, y) = variant in
   let mops = Stdlib.List.filter_map (fun x -> x) parsed in
-  let tr = ref (C09Model.run_variant d f k mops) in
+  let tr = ref (C09Model.run_variant d f k y mops) in
   let tags = Hashtbl.create 8 in
   let stopped = ref false in
   Stdlib.List.iteri (fun i po ->
